@@ -130,10 +130,15 @@ def body(ctx: Ctx):
     import socket
 
     real_popen = sp.subprocess.Popen
+    real_os = None
     host = socket.gethostname()
     boot_cases = 0
     try:
         sp.subprocess.Popen = PopenRecorder
+        from .common import OsProxy
+        real_os = getattr(sp, "os", None)
+        if real_os is not None:
+            sp.os = OsProxy()       # fix 24eb13b: the spawner creates the working directory; recorded, not done
         for i in range(n_boot):
             c = corpus[i] if i < len(corpus) else gen_req(ctx.rng, opaque_only=(i % 5 != 4))
             kind = ctx.rng.choice(["srun", "mpiexec"])
@@ -185,6 +190,8 @@ def body(ctx: Ctx):
                 interface.shutdown(wait=True)
     finally:
         sp.subprocess.Popen = real_popen
+        if real_os is not None:
+            sp.os = real_os
 
     # ---- 3. parse_arguments on arbitrary argv (model correspondence incl. the IndexError branch)
     toks = ["--host", "--zmqport", "a", "b", "1234", "localhost", "-n", "python"]
